@@ -196,6 +196,8 @@ def run(ck):
     exempt.run(ck, prog)
     exempt.count_rule(ck, prog)
     exempt.assertion_divisor_rule(ck, prog)
+    from . import c16 as _c16
+    _c16.group_key_rule(ck, prog)
     m = [g for g in by_err(gs, "InconsistentOodConstraintEvaluations")
          if match_cmp(g, ("!=",), has_callee("evaluator::evaluate_constraints"),
                       all_of(has_callee("VerifierChannel::read_ood_constraint_evaluations"), has_callee("RandomCoin::draw"),
